@@ -87,7 +87,11 @@ type exec struct {
 	conn      fakeConn
 	inside    uint32
 	sawInside bool
-	sawSecond bool // parameterised-prefix family: a handler read a non-empty *2 or +2
+	sawSecond bool                 // parameterised-prefix family: a handler read a non-empty *2 or +2
+	sawExtra  bool                 // registration-forms family: the extra first handler of a registration or a group's middleware ran
+	rm        []byte               // registration-forms family: Route().Method seen by each handler of the current request
+	oddCalls  int64                // pattern-shape family: evaluations of the custom constraint "odd"
+	subOf     map[*node]*fiber.App // the sub-app created for every mount node of the program being built ('s' nodes mount it again)
 
 	// map-iteration chooser (verifrt.MapOrder): plan[k] = pick at the k-th choice point
 	plan    map[int]int
@@ -137,6 +141,13 @@ func (e *exec) mkHandler(id int, next bool) fiber.Handler {
 				return c.Next()
 			}
 			return c.SendString(replyBody[id])
+		}
+		if formMode {
+			e.rm = append(e.rm, c.Route().Method...)
+			e.rm = append(e.rm, ';')
+			if id >= preOffset {
+				e.sawExtra = true
+			}
 		}
 		e.tr = append(e.tr, byte('0'+id), ':')
 		e.tr = append(e.tr, c.Params("id")...)
@@ -201,7 +212,10 @@ func (e *exec) richTrace(id int, c fiber.Ctx) {
 
 var richKeys = []string{"*1", "*2", "*3", "+1", "+2", "+3", "*", "+"}
 
-func addRoute(r fiber.Router, n *node, pat string, h fiber.Handler) {
+// addRoute registers leaf n (handler id) on r under pattern pat, in the form its kind names.
+// alt is the second prefix of a USE-LIST leaf as r spells it.
+func (e *exec) addRoute(r fiber.Router, n *node, pat, alt string, id int) {
+	h := e.handlers[id][b2i(n.Next)]
 	switch n.Kind {
 	case kGET:
 		r.Get(pat, h)
@@ -209,13 +223,71 @@ func addRoute(r fiber.Router, n *node, pat string, h fiber.Handler) {
 		r.Use(pat, h)
 	case kPOST:
 		r.Post(pat, h)
-	default:
+	case kALL:
 		r.All(pat, h)
+	case kHEAD:
+		r.Head(pat, h)
+	case kPUT:
+		r.Put(pat, h)
+	case kDELETE:
+		r.Delete(pat, h)
+	case kCONNECT:
+		r.Connect(pat, h)
+	case kOPTIONS:
+		r.Options(pat, h)
+	case kTRACE:
+		r.Trace(pat, h)
+	case kPATCH:
+		r.Patch(pat, h)
+	case kADD2:
+		r.Add([]string{"GET", "POST"}, pat, h)
+	case kUSEL:
+		r.Use([]string{pat, alt}, h)
+	case kGET2:
+		r.Get(pat, e.handlers[id+preOffset][1], h)
+	case kUSE2:
+		r.Use(pat, e.handlers[id+preOffset][1], h)
+	case kRGET:
+		r.Route(pat).Get(h)
+	case kRALL:
+		r.Route(pat).All(h)
+	default:
+		panic("leaf kind")
 	}
 }
 
+// regState numbers the handlers while a program is registered: leaves and groups with a middleware, in DFS order.
+type regState struct{ id, mw int }
+
+// oddConstraint is the custom constraint every app of the pattern-shape family registers: ":id<odd>".
+type oddConstraint struct{ e *exec }
+
+func (oddConstraint) Name() string { return "odd" }
+func (o oddConstraint) Execute(param string, _ ...string) bool {
+	o.e.oddCalls++
+	return param != "" && (param[len(param)-1]-'0')%2 == 1 && param[len(param)-1] >= '0' && param[len(param)-1] <= '9'
+}
+
+// newApp creates one application of a program (root or sub-app).
+func (e *exec) newApp(fc fiber.Config) *fiber.App {
+	app := fiber.New(fc)
+	if richMode {
+		app.RegisterCustomConstraint(oddConstraint{e})
+	}
+	return app
+}
+
+// group creates the group of node n on r: router.Group(prefix) or router.Group(prefix, middleware).
+func (e *exec) group(r fiber.Router, n *node, st *regState) fiber.Router {
+	if n.MW {
+		st.mw++
+		return r.Group(n.Prefix, e.handlers[mwOffset+st.mw-1][1])
+	}
+	return r.Group(n.Prefix)
+}
+
 // regItems registers items on r the way program prog spells them (mounts as written / as groups).
-func (e *exec) regItems(r fiber.Router, items []*node, subRoot bool, prog int, fc fiber.Config, id *int) {
+func (e *exec) regItems(r fiber.Router, items []*node, subRoot bool, prog int, fc fiber.Config, st *regState) {
 	for _, n := range items {
 		switch {
 		case n.T == 'r':
@@ -223,26 +295,42 @@ func (e *exec) regItems(r fiber.Router, items []*node, subRoot bool, prog int, f
 			if emptyAsRoot && subRoot && prog == progGroup && pat == "" {
 				pat = "/" // experiment only (C04_EMPTY_AS_ROOT=1): the other reading of an empty pattern in a sub-app
 			}
-			addRoute(r, n, pat, e.handlers[*id][b2i(n.Next)])
-			*id++
+			e.addRoute(r, n, pat, listAlt, st.id)
+			st.id++
 		case n.T == 'g':
-			e.regItems(r.Group(n.Prefix), n.Items, false, prog, fc, id)
-		case prog == progGroup:
-			e.regItems(r.Group(n.Prefix), n.Items, true, prog, fc, id)
-		case prog == progMountLate:
-			sub := fiber.New(fc)
+			e.regItems(e.group(r, n, st), n.Items, false, prog, fc, st)
+		case n.T == 's' && prog == progGroup:
+			// the group spelling of mounting a sub-app again: its items once more, with the same handlers
+			tmp := regState{mw: st.mw}
+			if n.ref != nil {
+				tmp.id = n.ref.start
+			}
+			e.regItems(r.Group(n.Prefix), n.refItems(), true, prog, fc, &tmp)
+		case n.T == 's':
+			sub := e.subOf[n.ref]
+			if sub == nil {
+				sub = e.newApp(fc)
+			}
 			r.Use(n.Prefix, sub)
-			e.regItems(sub, n.Items, true, prog, fc, id)
+		case prog == progGroup:
+			e.regItems(r.Group(n.Prefix), n.Items, true, prog, fc, st)
+		case prog == progMountLate:
+			sub := e.newApp(fc)
+			e.subOf[n] = sub
+			r.Use(n.Prefix, sub)
+			e.regItems(sub, n.Items, true, prog, fc, st)
 		case prog == progMountCfg:
 			// the parent's configuration governs mounted routes: the sub-app's own must not matter
 			oc := fc
 			oc.CaseSensitive, oc.StrictRouting = !fc.CaseSensitive, !fc.StrictRouting
-			sub := fiber.New(oc)
-			e.regItems(sub, n.Items, true, prog, fc, id)
+			sub := e.newApp(oc)
+			e.subOf[n] = sub
+			e.regItems(sub, n.Items, true, prog, fc, st)
 			r.Use(n.Prefix, sub)
 		default:
-			sub := fiber.New(fc)
-			e.regItems(sub, n.Items, true, prog, fc, id)
+			sub := e.newApp(fc)
+			e.subOf[n] = sub
+			e.regItems(sub, n.Items, true, prog, fc, st)
 			r.Use(n.Prefix, sub)
 		}
 	}
@@ -267,11 +355,13 @@ func (e *exec) runPhased(t *tree, ti *treeInfo, c rcfg, prog int, into *obsSet) 
 	}
 	var app *fiber.App
 	var h fasthttp.RequestHandler
-	id := 0
+	var st regState
+	t.link()
+	e.resetSubs()
 	fc := c.fiber()
 	if msg := catch("STARTUP-PANIC ", func() {
-		app = fiber.New(fc)
-		e.regItems(app, t.Items[:t.split()], false, prog, fc, &id)
+		app = e.newApp(fc)
+		e.regItems(app, t.Items[:t.split()], false, prog, fc, &st)
 		h = app.Handler()
 	}); msg != "" {
 		fail(msg)
@@ -283,7 +373,7 @@ func (e *exec) runPhased(t *tree, ti *treeInfo, c rcfg, prog int, into *obsSet) 
 		}
 	}
 	if msg := catch("LATE-REGISTRATION-PANIC ", func() {
-		e.regItems(app, t.Items[t.split():], false, prog, fc, &id)
+		e.regItems(app, t.Items[t.split():], false, prog, fc, &st)
 		app.RebuildTree()
 	}); msg != "" {
 		fail(msg)
@@ -295,6 +385,15 @@ func (e *exec) runPhased(t *tree, ti *treeInfo, c rcfg, prog int, into *obsSet) 
 			e.call(h, m, path)
 			into.add(e.tr, e.rp)
 		}
+	}
+}
+
+func (e *exec) resetSubs() {
+	if e.subOf == nil {
+		e.subOf = map[*node]*fiber.App{}
+	}
+	for k := range e.subOf {
+		delete(e.subOf, k)
 	}
 }
 
@@ -318,27 +417,53 @@ func (e *exec) build(t *tree, c rcfg, prog int, plan map[int]int) (h fasthttp.Re
 		}
 	}()
 	fc := c.fiber()
-	app := fiber.New(fc)
+	app := e.newApp(fc)
+	var st regState
+	t.link()
+	e.resetSubs()
 	id := 0
 	switch prog {
 	case progMount, progMountLate, progGroup, progMountCfg:
-		e.regItems(app, t.Items, false, prog, fc, &id)
+		e.regItems(app, t.Items, false, prog, fc, &st)
 	case progFlat:
+		// every registration spelled with its full path on the root app; a group's middleware is
+		// app.Use(full prefix, middleware) at the place where the group is created; a Route()
+		// registered from a group is the plain registration of the full path
 		var reg func(items []*node, acc string, depth int)
 		reg = func(items []*node, acc string, depth int) {
 			for _, n := range items {
 				if n.T == 'r' {
-					p := n.Pat
+					p, alt := n.Pat, listAlt
 					if depth > 0 {
-						p = refJoin(acc, n.Pat)
+						p, alt = refJoin(acc, n.Pat), refJoin(acc, listAlt)
 					}
-					addRoute(app, n, p, e.handlers[id][b2i(n.Next)])
+					fn := n
+					switch n.Kind {
+					case kRGET:
+						fn = &node{T: 'r', Kind: kGET, Next: n.Next}
+					case kRALL:
+						fn = &node{T: 'r', Kind: kUSE, Next: n.Next}
+					}
+					e.addRoute(app, fn, p, alt, id)
 					id++
 					continue
 				}
 				nacc := n.Prefix
 				if depth > 0 {
 					nacc = refJoin(acc, n.Prefix)
+				}
+				if n.MW && n.T == 'g' {
+					st.mw++
+					app.Use(nacc, e.handlers[mwOffset+st.mw-1][1])
+				}
+				if n.T == 's' { // a sub-app mounted again: its items once more, with the same handlers
+					if n.ref != nil {
+						saved := id
+						id = n.ref.start
+						reg(n.ref.Items, nacc, depth+1)
+						id = saved
+					}
+					continue
 				}
 				reg(n.Items, nacc, depth+1)
 			}
@@ -357,20 +482,58 @@ func (e *exec) build(t *tree, c rcfg, prog int, plan map[int]int) (h fasthttp.Re
 				if n.T == 'r' {
 					r := route(parent, n.Pat)
 					hd := e.handlers[id][b2i(n.Next)]
+					pre := e.handlers[id+preOffset][1]
 					id++
 					switch n.Kind {
-					case kGET:
+					case kGET, kRGET:
 						r.Get(hd)
 					case kPOST:
 						r.Post(hd)
-					case kUSE:
+					case kUSE, kRALL:
 						r.All(hd) // Register.All is documented as the middleware (prefix) registration
+					case kHEAD:
+						r.Head(hd)
+					case kPUT:
+						r.Put(hd)
+					case kDELETE:
+						r.Delete(hd)
+					case kCONNECT:
+						r.Connect(hd)
+					case kOPTIONS:
+						r.Options(hd)
+					case kTRACE:
+						r.Trace(hd)
+					case kPATCH:
+						r.Patch(hd)
+					case kADD2:
+						r.Add([]string{"GET", "POST"}, hd)
+					case kUSEL:
+						r.All(hd)
+						route(parent, listAlt).All(hd)
+					case kGET2:
+						r.Get(pre, hd)
+					case kUSE2:
+						r.All(pre, hd)
 					default:
 						r.Add(fiber.DefaultMethods, hd)
 					}
 					continue
 				}
-				reg(route(parent, n.Prefix), n.Items)
+				rr := route(parent, n.Prefix)
+				if n.MW && n.T == 'g' {
+					st.mw++
+					rr.All(e.handlers[mwOffset+st.mw-1][1])
+				}
+				if n.T == 's' {
+					if n.ref != nil {
+						saved := id
+						id = n.ref.start
+						reg(rr, n.ref.Items)
+						id = saved
+					}
+					continue
+				}
+				reg(rr, n.Items)
 			}
 		}
 		reg(nil, t.Items)
@@ -401,6 +564,7 @@ func panicText(r any) string {
 func (e *exec) call(h fasthttp.RequestHandler, method, path string) {
 	e.tr = e.tr[:0]
 	e.rp = e.rp[:0]
+	e.rm = e.rm[:0]
 	e.reqs++
 	defer func() {
 		if r := recover(); r != nil {
@@ -419,9 +583,17 @@ func (e *exec) call(h fasthttp.RequestHandler, method, path string) {
 	e.tr = append(e.tr, f.Response.Header.Peek("Allow")...)
 	e.tr = append(e.tr, '|')
 	e.tr = append(e.tr, f.Response.Body()...)
+	if formMode {
+		e.tr = append(e.tr, " Route().Method="...)
+		e.tr = append(e.tr, e.rm...)
+	}
 }
 
-var methods = []string{"GET", "POST"}
+var twoMethods = []string{"GET", "POST"}
+var allMethods = []string{"GET", "HEAD", "POST", "PUT", "DELETE", "CONNECT", "OPTIONS", "TRACE", "PATCH"}
+
+// methods of the requests (every HTTP method in formMode)
+var methods = twoMethods
 
 // obsSet stores the observations of one program over the request list.
 type obsSet struct {
